@@ -143,12 +143,12 @@ func (m *c17Runner) Tokenize(_ context.Context, s string) ([]int, error) {
 }
 
 func (m *c17Runner) Detokenize(context.Context, []int) (string, error) { return "", nil }
-func (m *c17Runner) Ping(context.Context) error                       { return nil }
-func (m *c17Runner) WaitUntilRunning(context.Context) error           { return nil }
-func (m *c17Runner) Close() error                                     { return nil }
-func (m *c17Runner) EstimatedVRAM() uint64                            { return 0 }
-func (m *c17Runner) EstimatedTotal() uint64                           { return 0 }
-func (m *c17Runner) EstimatedVRAMByGPU(string) uint64                 { return 0 }
+func (m *c17Runner) Ping(context.Context) error                        { return nil }
+func (m *c17Runner) WaitUntilRunning(context.Context) error            { return nil }
+func (m *c17Runner) Close() error                                      { return nil }
+func (m *c17Runner) EstimatedVRAM() uint64                             { return 0 }
+func (m *c17Runner) EstimatedTotal() uint64                            { return 0 }
+func (m *c17Runner) EstimatedVRAMByGPU(string) uint64                  { return 0 }
 
 // ------------------------------------------------------------------------------------------------
 // HTTP plumbing: the router is driven either in-process (a ResponseWriter that records the body) or
@@ -410,6 +410,7 @@ type c17Shape struct {
 	Suffix       string   `json:"suffix,omitempty"`
 	Prompt       string   `json:"prompt,omitempty"`
 	Messages     []c17Msg `json:"messages,omitempty"`
+	ToolHistory  bool     `json:"tool_history,omitempty"`  // the conversation already holds an assistant tool call and its tool result
 	StreamNil    bool     `json:"stream_nil,omitempty"`    // native streaming requested by leaving "stream" out
 	IncludeUsage bool     `json:"include_usage,omitempty"` // OpenAI stream_options.include_usage
 }
@@ -428,6 +429,7 @@ type c17Case struct {
 	P          int      `json:"prompt_eval_count"`
 	E          int      `json:"eval_count"`
 	TCP        bool     `json:"tcp,omitempty"`
+	MidRune    []int    `json:"mid_rune_cuts,omitempty"` // extra cuts inside multi-byte characters: observed and counted, not judged (see assumptions)
 }
 
 const c17Schema = `{"type":"object","properties":{"answer":{"type":"string"}},"required":["answer"]}`
@@ -698,6 +700,16 @@ func c17GenCuts(r *kit.Rand, s string) []int {
 		}
 	}
 	sort.Ints(cuts)
+	// the streaming tool path re-parses its whole buffer for every piece: keep the piece count bounded
+	for len(cuts) > 250 {
+		keep := cuts[:0]
+		for i, p := range cuts {
+			if i%2 == 0 {
+				keep = append(keep, p)
+			}
+		}
+		cuts = keep
+	}
 	return cuts
 }
 
@@ -728,6 +740,7 @@ func c17GenShape(r *kit.Rand) c17Shape {
 		for i, n := 0, r.Range(0, 2); i < n; i++ {
 			sh.Messages = append(sh.Messages, c17Msg{"user", c17Text(r, r.Range(1, 5), false)}, c17Msg{"assistant", c17Text(r, r.Range(1, 5), r.Chance(1, 3))})
 		}
+		sh.ToolHistory = sh.Tools && r.Chance(1, 4)
 		sh.Messages = append(sh.Messages, c17Msg{"user", c17Text(r, r.Range(1, 8), r.Chance(1, 3))})
 	}
 	switch r.Intn(6) {
@@ -768,6 +781,13 @@ func c17GenRandom(r *kit.Rand, idx int) c17Case {
 		c.FaultAfter = c17FaultPos(r, len(c.Chunks))
 	case f < 25 && c.Shape.Endpoint == "generate" && !c.Shape.Raw:
 		c.Fault = "tokenize"
+	}
+	if c.Fault == "" && len(c.Output) > len([]rune(c.Output)) && r.Chance(1, 3) {
+		for i := 1; i < len(c.Output); i++ {
+			if !utf8.RuneStart(c.Output[i]) && r.Chance(1, 3) {
+				c.MidRune = append(c.MidRune, i)
+			}
+		}
 	}
 	return c
 }
@@ -904,26 +924,27 @@ func c17ExhCase(plan []c17ExhEntry, j, idx int) c17Case {
 // observations
 
 type c17Obs struct {
-	Variant   string   `json:"variant"`
-	Status    int      `json:"status"`
-	Text      string   `json:"text"`
-	Tools     []string `json:"tool_calls"` // sorted "name args-as-canonical-JSON"
-	Finish    string   `json:"finish"`
-	P         int      `json:"prompt_tokens"`
-	E         int      `json:"completion_tokens"`
-	HasUsage  bool     `json:"has_usage"`
-	Items     int      `json:"items"`
-	Finals    int      `json:"final_items"` // native: done:true messages; OpenAI: chunks with a finish_reason
-	DoneMarks int      `json:"done_markers"`
-	Errors    int      `json:"error_items"`
-	AfterTerm int      `json:"items_after_terminal"`
-	ErrMsg    string   `json:"error_message,omitempty"`
-	Malformed string   `json:"malformed,omitempty"`
-	ClientErr string   `json:"client_error,omitempty"`
-	ClientN   int      `json:"client_items"`
-	Seen      c17Seen  `json:"runner_saw"`
-	Panic     string   `json:"panic,omitempty"`
-	Raw       string   `json:"raw_body_tail"`
+	Variant    string   `json:"variant"`
+	Status     int      `json:"status"`
+	Text       string   `json:"text"`
+	Tools      []string `json:"tool_calls"` // sorted "name args-as-canonical-JSON"
+	Finish     string   `json:"finish"`
+	P          int      `json:"prompt_tokens"`
+	E          int      `json:"completion_tokens"`
+	HasUsage   bool     `json:"has_usage"`
+	Items      int      `json:"items"`
+	Finals     int      `json:"final_items"` // native: done:true messages; OpenAI: chunks with a finish_reason
+	DoneMarks  int      `json:"done_markers"`
+	Errors     int      `json:"error_items"`
+	AfterTerm  int      `json:"items_after_terminal"`
+	ErrMsg     string   `json:"error_message,omitempty"`
+	Malformed  string   `json:"malformed,omitempty"`
+	ClientErr  string   `json:"client_error,omitempty"`
+	ClientDiff string   `json:"client_view_differs,omitempty"`
+	ClientN    int      `json:"client_items"`
+	Seen       c17Seen  `json:"runner_saw"`
+	Panic      string   `json:"panic,omitempty"`
+	Raw        string   `json:"raw_body_tail"`
 }
 
 func c17Canon(name string, args any) string {
@@ -1020,7 +1041,13 @@ func (w *c17World) native(c c17Case, stream bool, chunks []string, fault string,
 		})
 	} else {
 		req := &api.ChatRequest{Model: sh.Model, Stream: sp, Format: c17Format(sh), Options: c17Options(sh)}
-		for _, m := range sh.Messages {
+		for i, m := range sh.Messages {
+			if sh.ToolHistory && i == len(sh.Messages)-1 {
+				req.Messages = append(req.Messages,
+					api.Message{Role: "user", Content: "weather in Paris?"},
+					api.Message{Role: "assistant", ToolCalls: []api.ToolCall{{Function: api.ToolCallFunction{Name: "get_weather", Arguments: api.ToolCallFunctionArguments{"city": "Paris"}}}}},
+					api.Message{Role: "tool", Content: "22 C"})
+			}
 			req.Messages = append(req.Messages, api.Message{Role: m.Role, Content: m.Content})
 		}
 		if sh.Tools {
@@ -1111,9 +1138,9 @@ func (w *c17World) native(c c17Case, stream bool, chunks []string, fault string,
 	if o.Malformed == "" {
 		switch {
 		case o.Errors == 0 && cap.Status < 400 && (o.ClientErr != "" || o.ClientN != o.Items || o.Text != rawText.String() || !c17SameStrings(o.Tools, rawTools) || clientDone != o.Finals || (o.Finals > 0 && (clientFinish != o.Finish || clientP != o.P || clientE != o.E))):
-			o.Malformed = fmt.Sprintf("api.Client view differs from the body: client err=%q items=%d text=%q tools=%v done=%d; body items=%d text=%q tools=%v done=%d", o.ClientErr, o.ClientN, o.Text, o.Tools, clientDone, o.Items, rawText.String(), rawTools, o.Finals)
+			o.ClientDiff = fmt.Sprintf("api.Client view differs from the body: client err=%q items=%d text=%q tools=%v done=%d; body items=%d text=%q tools=%v done=%d", o.ClientErr, o.ClientN, o.Text, o.Tools, clientDone, o.Items, rawText.String(), rawTools, o.Finals)
 		case (o.Errors > 0 || cap.Status >= 400) && o.ClientErr == "":
-			o.Malformed = "body carries an error (or status >= 400) but api.Client returned no error"
+			o.ClientDiff = "body carries an error (or status >= 400) but api.Client returned no error"
 		}
 	}
 	return o
@@ -1180,7 +1207,13 @@ func (w *c17World) openai(c c17Case, stream bool, chunks []string, fault string,
 		}
 	} else {
 		var msgs []map[string]any
-		for _, m := range sh.Messages {
+		for i, m := range sh.Messages {
+			if sh.ToolHistory && i == len(sh.Messages)-1 {
+				msgs = append(msgs,
+					map[string]any{"role": "user", "content": "weather in Paris?"},
+					map[string]any{"role": "assistant", "tool_calls": []any{map[string]any{"id": "call_c17", "type": "function", "function": map[string]any{"name": "get_weather", "arguments": `{"city":"Paris"}`}}}},
+					map[string]any{"role": "tool", "content": "22 C", "tool_call_id": "call_c17"})
+			}
 			msgs = append(msgs, map[string]any{"role": m.Role, "content": m.Content})
 		}
 		body["messages"] = msgs
@@ -1492,6 +1525,10 @@ func c17Judge(c c17Case, ref, o *c17Obs, stream, openai bool, fault string) (fs 
 		add("malformed", o.Malformed)
 		return
 	}
+	if o.ClientDiff != "" {
+		add("api-client-view-differs", o.ClientDiff)
+		return
+	}
 	if o.Seen.Calls != 1 {
 		add("runner-calls", fmt.Sprintf("the runner's Completion was called %d times for one request (status %d, error %q)", o.Seen.Calls, o.Status, o.ErrMsg))
 		return
@@ -1633,6 +1670,24 @@ func (w *c17World) run(c c17Case, rep *kit.Report) (fs []c17Finding, ref *c17Obs
 	} else {
 		rep.Count("openai_not_expressible", 1)
 	}
+	if len(c.MidRune) > 0 {
+		// pieces that are not valid UTF-8 cannot come out of the real runner; what the handlers do with
+		// them is recorded for the notes, only a panic counts
+		cuts := append(append([]int(nil), c.Cuts...), c.MidRune...)
+		sort.Ints(cuts)
+		pieces := c17Cut(c.Output, cuts)
+		for _, stream := range []bool{true, false} {
+			o := w.native(c, stream, pieces, "", false)
+			switch {
+			case o.Panic != "":
+				fs = append(fs, c17Finding{Sig: "c17:" + o.Variant + ":panic:" + o.Panic, What: "handler panicked on pieces cut inside a multi-byte character", Obs: o})
+			case o.Text == ref.Text && c17SameStrings(o.Tools, ref.Tools):
+				rep.Count("midrune:"+o.Variant+":same-result", 1)
+			default:
+				rep.Count("midrune:"+o.Variant+":different-result(not-judged)", 1)
+			}
+		}
+	}
 	return
 }
 
@@ -1663,7 +1718,7 @@ func TestVerifC17(t *testing.T) {
 	})
 	w := c17Setup(t)
 	plan, nExh := c17ExhPlan(cfg.Tier == "thorough")
-	nRand := cfg.N(2400, 160000)
+	nRand := cfg.N(6000, 600000)
 	total := nExh + nRand
 	rep.Set("exhaustive_subworkload_cases", nExh)
 	rep.Set("random_cases", nRand)
@@ -1737,7 +1792,7 @@ func TestVerifC17(t *testing.T) {
 					fpos = "mid"
 				}
 			}
-			rep.Distinct(fmt.Sprint(sh.Endpoint, sh.Model, sh.Tools, sh.Format, len(sh.Stop) > 0, sh.Raw, sh.System != "", sh.Template != "", sh.Suffix != "", c.Class, c17Bucket(len(c.Chunks)), spans, c.Fault, fpos, ref != nil && len(ref.Tools) > 0, c.Done, c.TCP))
+			rep.Distinct(fmt.Sprint(sh.Endpoint, sh.Model, sh.Tools, sh.ToolHistory, sh.Format, len(sh.Stop) > 0, sh.Raw, sh.System != "", sh.Template != "", sh.Suffix != "", c.Class, c17Bucket(len(c.Chunks)), spans, c.Fault, fpos, ref != nil && len(ref.Tools) > 0, c.Done, c.TCP))
 		}
 		if rep.NeedSample() && i >= nExh && len(c.Chunks) >= 2 && len(c.Output) < 120 {
 			rep.Sample(c)
